@@ -171,6 +171,8 @@ class ACModel:
         if t == 3 and b[0] == 0xB5:
             page = 1 if (len(b) >= 3 and b[2] == 1) else 0
             self.log.append(("get_caps", page))
+            if page == 1 and getattr(self, "lose_second_page", False):
+                return []                                  # the request for the additional page goes unanswered
             if page < len(self.caps_pages):
                 return [resp_frame(3, self.caps_pages[page], self.style)]
             return []
